@@ -17,7 +17,7 @@ func init() {
 		ID:          "C10",
 		Title:       "Parsing and evaluation are total: no panics, invalid input is rejected",
 		Technique:   "static analysis: every unchecked type assertion discharged by a dominating type-tag guard + GetType/interface table, an only-writer container rule or a tabled reason; nil-guard dominance for every dereference of a nullable Eval*/Get*/FieldTo* result; must-pass rule for lexer+parser error listeners; explicit-panic reachability from the query entry points; nil-bucket rule on the query path",
-		LevelText:   "Panic-freedom of this repository's own parse→type→evaluate code is decided as a finite list of obligation kinds, each complete over its sites: unchecked type assertions, dereferences of nullable results, lexer/parser error reporting, explicit panics reachable from query entry points. Termination, stack depth, index/arith faults and panics inside ANTLR or other dependencies are not decided. Lookups that can yield a nil *TypedBucket and the TypedBucket methods that tolerate a nil receiver are computed; on the query path a possibly-nil bucket is not dereferenced (also not through a bound method value) without a nil test. Added later: a type transform that fails leaves its operands untouched (ASSERT.UNTOUCHED); a runtime set symbol's Eval tests its cursor before it dereferences it (LATECURSOR, found as a genuine defect and repaired); the possible dynamic types of TypeTransform results are computed through constructors and constant constructor tables (SYMCLOSED). Added in rounds 8-9: no method call on an untested token accessor result (TERMINALNIL); no append to a slice of nil-able elements made with a length (MAKEAPPEND). Added in round 10: a string cut or indexed at a constant position is dominated by a length test (STRBOUNDS, seeded control pair). Added in round 11: a pointer that can be nil is not put into an interface without a nil test (TYPEDNIL, seeded control pair); the in-memory symbol table is asked for the name given (SYMSAME). Added in round 12: the found answer of a symbol-table lookup is looked at where the value is used (FOUNDUSED); no write through a slice-element pointer after an append to the slice (STALEELEM). Added in round 13: the answer of llrb Max()/Min() is tested before use (LLRBNIL); an array with an entry for every value of the index type needs no bound.",
+		LevelText:   "Panic-freedom of this repository's own parse→type→evaluate code is decided as a finite list of obligation kinds, each complete over its sites: unchecked type assertions, dereferences of nullable results, lexer/parser error reporting, explicit panics reachable from query entry points. Termination, stack depth, index/arith faults and panics inside ANTLR or other dependencies are not decided. Lookups that can yield a nil *TypedBucket and the TypedBucket methods that tolerate a nil receiver are computed; on the query path a possibly-nil bucket is not dereferenced (also not through a bound method value) without a nil test. Added later: a type transform that fails leaves its operands untouched (ASSERT.UNTOUCHED); a runtime set symbol's Eval tests its cursor before it dereferences it (LATECURSOR, found as a genuine defect and repaired); the possible dynamic types of TypeTransform results are computed through constructors and constant constructor tables (SYMCLOSED). Added in rounds 8-9: no method call on an untested token accessor result (TERMINALNIL); no append to a slice of nil-able elements made with a length (MAKEAPPEND). Added in round 10: a string cut or indexed at a constant position is dominated by a length test (STRBOUNDS, seeded control pair). Added in round 11: a pointer that can be nil is not put into an interface without a nil test (TYPEDNIL, seeded control pair); the in-memory symbol table is asked for the name given (SYMSAME). Added in round 12: the found answer of a symbol-table lookup is looked at where the value is used (FOUNDUSED); no write through a slice-element pointer after an append to the slice (STALEELEM). Added in round 13: the answer of llrb Max()/Min() is tested before use (LLRBNIL); an array with an entry for every value of the index type needs no bound. Where a bbolt cursor kept in a field is treated as possibly absent by one function, every call through that field is made where it is known to be non-nil (NILFIELD, a contradiction rule).",
 		LevelNote:   "Trusted: go/types, x/tools SSA, ANTLR runtime and generated parser; tabled reasons in checker/rules_c10.go (each names one construct).",
 		DesignRef:   "DESIGN.md C10",
 		Explanation: "ASSERT sites: all single-result type assertions in non-generated production code. NILDEREF sites: every load through a pointer produced by a nullable source call. LEXERR: paths of zitiql.parse to Start_(). PANIC: call-graph reachability of panic instructions from the public query entry points.",
@@ -44,6 +44,7 @@ func init() {
 
 func rulesC10(c *Ctx) {
 	ruleTreeExtremeNilChecked(c, "C10.LLRBNIL", "boltz", "objectz", "ast")
+	ruleNilFieldBelief(c, "C10.NILFIELD")
 	ruleC10Assert(c)
 	ruleNilDeref(c, "C10.NILDEREF", c.prodFuncs("ast", "objectz", "boltz"))
 	c.Floor("C10.NILDEREF", 60)
